@@ -1,6 +1,7 @@
 package rules
 
 import (
+	"encoding/json"
 	"fmt"
 	"go/ast"
 	"go/constant"
@@ -1573,6 +1574,52 @@ func checkGeneratedValidators(c *core.Ctx, exp *core.Expansion) {
 		}
 		if used > 0 {
 			r.Pass(fmt.Sprintf("%s: %d regexMap/ratMap lookups use defined keys", fx.Name, used))
+		}
+		// (e) the verifier's own fixtures use every schema they declare: each `pattern` (and patternProperties key)
+		// written in the document must be compiled into regexMap — a pattern the generator decided not to compile is
+		// a pattern that is never executed
+		if strings.HasPrefix(fx.Name, "vf_") {
+			if raw, err := os.ReadFile(fx.Spec); err == nil {
+				var doc any
+				if json.Unmarshal(raw, &doc) == nil {
+					var pats []string
+					var walkDoc func(v any)
+					walkDoc = func(v any) {
+						switch x := v.(type) {
+						case map[string]any:
+							for k, vv := range x {
+								if k == "pattern" {
+									if str, ok := vv.(string); ok {
+										pats = append(pats, str)
+										continue
+									}
+								}
+								if k == "patternProperties" {
+									if m, ok := vv.(map[string]any); ok {
+										for pk := range m {
+											pats = append(pats, pk)
+										}
+									}
+								}
+								walkDoc(vv)
+							}
+						case []any:
+							for _, vv := range x {
+								walkDoc(vv)
+							}
+						}
+					}
+					walkDoc(doc)
+					sort.Strings(pats)
+					for _, pt := range pats {
+						if defined["regexMap"][pt] {
+							r.Ob(true, "")
+						} else {
+							r.Fail(fmt.Sprintf("pattern-not-compiled:%s:%q", fx.Name, pt), fx.Name+"/oas_cfg_gen.go", fmt.Sprintf("the fixture declares pattern %q but the generated regexMap has no entry for it: the pattern is never executed (every value is accepted)", pt))
+						}
+					}
+				}
+			}
 		}
 		// (b), (d): SSA
 		for _, fn := range core.PkgFuncs(exp.Prog.SSA, pkg) {
